@@ -11,7 +11,7 @@
 object_t *command_giver; time_t current_time;
 
 void h_new_call_out(void) {
-  static pending_call_t A, B, pool[3]; static object_t ob; static char fname[] = "f";
+  static pending_call_t A, B, N0, N1, N2;   /* separate objects, not an array (see C12) */ static object_t ob; static char fname[] = "f";
   V_FILL(main_options_t, G_opts, opts); g_main_options = &G_opts;
   V_DECL(long, cot); V_DECL(long, now); V_DECL(long, delay);
   V_ASSUME(cot >= 1 && cot < (1L << 40) && now >= cot && now <= cot + 100 && delay >= -5 && delay < (1L << 30));
@@ -27,10 +27,10 @@ void h_new_call_out(void) {
   long dueA = due_of(slot, cot, dA), dueB = due_of(slot, cot, dA + dB);
   /* entries already due in the past cannot exist between sweeps */
   V_ASSUME(n < 1 || dueA > cot);
-  pool[0].next = &pool[1]; pool[1].next = &pool[2]; pool[2].next = 0; call_list_free = pool; unique = 7;
+  N0.next = &N1; N1.next = &N2; N2.next = 0; call_list_free = &N0; unique = 7;
   svalue_t fun; fun.type = T_STRING; fun.u.string = fname;
   int h = new_call_out(&ob, &fun, delay, 0, 0);
-  pending_call_t *e = &pool[0];
+  pending_call_t *e = &N0;
   /* locate the new entry and recompute every due time from the deltas now in the list */
   long sum = 0, due_new = -1, dueA2 = -1, dueB2 = -1; int seen = 0, posA = -1, posB = -1, posN = -1, k = 0;
   for (pending_call_t *c = call_list[slot]; c && k < 4; c = c->next, k++) {
